@@ -17,7 +17,7 @@ if s.count(old)<1:
 open(p,'w').write(s.replace(old,new,1))
 PY
 [ $? -ne 0 ] && { rm -rf $M; exit 3; }
-( cd $M && go build ./... 2>&1 | head -3; go test -vet=off -count=1 ./... 2>&1 | grep -E "^(FAIL|---|ok)" | grep -c '^ok' | sed "s/^/  [$name] repo test packages ok (of 6): /"; go test -vet=off -count=1 ./... 2>&1 | grep -E "^(--- FAIL)" | head -3 )
+( cd $M && go build ./... 2>&1 | head -3; go test -timeout 60s -vet=off -count=1 ./... > $M/.testout 2>&1; grep -c '^ok' $M/.testout | sed "s/^/  [$name] repo test packages ok (of 6): /"; grep -E "^(--- FAIL|panic: test timed out)" $M/.testout | head -3 )
 cd /verif
 for id in "$@"; do
   out=$(VERIF_REPO=$M VERIF_EVIDENCE_DIR=$M/.ev VERIF_REPLAY_DIR=$M/.rep ./check $id ${TIER:-quick} 2>&1)
